@@ -5,5 +5,5 @@ CHECK_DEADLOCK FALSE
 CONSTANTS
   Fam = "tab"
   MaxCies = 3
-  MaxFdes = 3
+  MaxFdes = 2
   Slim = FALSE
